@@ -28,8 +28,13 @@ pub struct Packed1(pub u8, pub u32);
 #[repr(C, packed(2))]
 pub struct Packed2(pub u8, pub u32);
 
-pub const NTYPES: u32 = 8;
-pub const TYPE_NAMES: [&str; NTYPES as usize] = ["struct (align 8, no drop glue)", "u8 (align 1)", "u16 (align 2)", "() (zero-sized)", "packed struct (align 1)", "packed(2) struct (align 2)", "String (drop glue, owns no handle)", "[u8;3]"];
+#[repr(align(64))]
+pub struct Over64(pub u8);
+#[repr(align(16))]
+pub struct Over16(pub u64);
+
+pub const NTYPES: u32 = 10;
+pub const TYPE_NAMES: [&str; NTYPES as usize] = ["struct (align 8, no drop glue)", "u8 (align 1)", "u16 (align 2)", "() (zero-sized)", "packed struct (align 1)", "packed(2) struct (align 2)", "String (drop glue, owns no handle)", "[u8;3]", "struct with alignment 64", "struct with alignment 16"];
 
 #[derive(Clone, Debug)]
 pub struct RawCase {
@@ -41,6 +46,9 @@ pub struct RawCase {
     pub extra: Vec<usize>,
     /// releases of outside handles: (by try_unwrap?, object)
     pub order: Vec<(bool, usize)>,
+    /// objects the program keeps NO Weak to (their box must go at the moment they die;
+    /// they are observed through the allocator only)
+    pub noweak: Vec<usize>,
 }
 
 impl RawCase {
@@ -48,10 +56,11 @@ impl RawCase {
         let e: Vec<String> = self.edges.iter().map(|(a, b)| format!("{a}>{b}")).collect();
         let x: Vec<String> = self.extra.iter().map(|v| v.to_string()).collect();
         let o: Vec<String> = self.order.iter().map(|(u, v)| if *u { format!("u{v}") } else { v.to_string() }).collect();
-        format!("Raw {};T {};E {};X {};O {}", self.k, self.ty, e.join(" "), x.join(" "), o.join(" "))
+        let w: Vec<String> = self.noweak.iter().map(|v| v.to_string()).collect();
+        format!("Raw {};T {};E {};X {};O {};W {}", self.k, self.ty, e.join(" "), x.join(" "), o.join(" "), w.join(" "))
     }
     pub fn parse(t: &str) -> Result<RawCase, String> {
-        let mut c = RawCase { k: 0, ty: 0, edges: vec![], extra: vec![], order: vec![] };
+        let mut c = RawCase { k: 0, ty: 0, edges: vec![], extra: vec![], order: vec![], noweak: vec![] };
         for part in t.split(';').map(str::trim) {
             if let Some(r) = part.strip_prefix("Raw ") {
                 c.k = r.trim().parse().map_err(|e| format!("{part}: {e}"))?;
@@ -64,6 +73,8 @@ impl RawCase {
                 }
             } else if let Some(r) = part.strip_prefix("X") {
                 c.extra = r.split_whitespace().map(|v| v.parse().unwrap_or(0)).collect();
+            } else if let Some(r) = part.strip_prefix("W") {
+                c.noweak = r.split_whitespace().filter_map(|v| v.parse().ok()).filter(|&v: &usize| v < 12).collect();
             } else if let Some(r) = part.strip_prefix("O") {
                 for v in r.split_whitespace() {
                     let (u, n) = match v.strip_prefix('u') {
@@ -132,7 +143,8 @@ pub fn generate(rng: &mut Rng) -> RawCase {
     for i in (1..order.len()).rev() {
         order.swap(i, rng.below(i + 1));
     }
-    RawCase { k, ty: rng.below(NTYPES as usize) as u32, edges, extra, order }
+    let noweak: Vec<usize> = if rng.chance(1, 2) { (0..k).filter(|_| rng.chance(1, 2)).collect() } else { vec![] };
+    RawCase { k, ty: rng.below(NTYPES as usize) as u32, edges, extra, order, noweak }
 }
 
 pub type Verdict = Option<(&'static str, &'static str, String, usize)>;
@@ -146,7 +158,9 @@ pub fn run(c: &RawCase, on_step: &mut dyn FnMut(usize)) -> Verdict {
         4 => run_t(c, &|i| Packed1(i as u8, 7), on_step),
         5 => run_t(c, &|i| Packed2(i as u8, 7), on_step),
         6 => run_t(c, &|i| format!("object {i}"), on_step),
-        _ => run_t(c, &|i| [i as u8; 3], on_step),
+        7 => run_t(c, &|i| [i as u8; 3], on_step),
+        8 => run_t(c, &|i| Over64(i as u8), on_step),
+        _ => run_t(c, &|i| Over16(i as u64), on_step),
     }
 }
 
@@ -155,13 +169,13 @@ fn run_t<T>(c: &RawCase, mk: &dyn Fn(usize) -> T, on_step: &mut dyn FnMut(usize)
     let k = c.k;
     let tname = TYPE_NAMES[c.ty as usize];
     let mut outside: Vec<Vec<Rc<T>>> = (0..k).map(|_| vec![]).collect();
-    let mut weaks: Vec<Weak<T>> = vec![];
+    let mut weaks: Vec<Option<Weak<T>>> = vec![];
     let mut addr: Vec<(usize, u32)> = vec![];
     for i in 0..k {
         let r = sut(|| Rc::new(mk(i)));
         let a = verif::rcbox_addr(&r);
         addr.push((a, alloc::block_gen(a)));
-        weaks.push(sut(|| Rc::downgrade(&r)));
+        weaks.push(if c.noweak.contains(&i) { None } else { Some(sut(|| Rc::downgrade(&r))) });
         outside[i].push(r);
     }
     for i in 0..k {
@@ -182,9 +196,20 @@ fn run_t<T>(c: &RawCase, mk: &dyn Fn(usize) -> T, on_step: &mut dyn FnMut(usize)
         raw_to[b] += 1;
         adopt[a][b] += 1;
     }
-    let observe = |alive: &Vec<bool>, outside: &Vec<Vec<Rc<T>>>, raw_to: &Vec<u32>, adopt: &Vec<Vec<u32>>, weaks: &Vec<Weak<T>>, step: usize| -> Verdict {
+    let observe = |alive: &Vec<bool>, outside: &Vec<Vec<Rc<T>>>, raw_to: &Vec<u32>, adopt: &Vec<Vec<u32>>, weaks: &Vec<Option<Weak<T>>>, step: usize| -> Verdict {
         for i in 0..k {
-            let sc = sut(|| weaks[i].strong_count());
+            let Some(wk) = weaks[i].as_ref() else {
+                // no Weak: the allocator is the witness - the box lives exactly as long as the object
+                let st = alloc::block_state_gen(addr[i].0, addr[i].1);
+                if alive[i] && st != alloc::BlockState::Live {
+                    return Some(("premature-destruction", "other-payload-object-destroyed", format!("payload {tname}: the allocation of object {i} is gone although the object is reachable or not collectable"), step));
+                }
+                if crate::report::soft_enabled(crate::report::S_LEAK) && !alive[i] && st != alloc::BlockState::Released {
+                    return Some(("not-released", "other-payload-allocation", format!("payload {tname}: object {i} is dead and no Weak to it exists, but its allocation has not been released"), step));
+                }
+                continue;
+            };
+            let sc = sut(|| wk.strong_count());
             let expect = if alive[i] { outside[i].len() as u32 + raw_to[i] } else { 0 };
             if alive[i] && sc == 0 {
                 return Some(("premature-destruction", "other-payload-object-destroyed", format!("payload {tname}: object {i} is dead although it is reachable or not collectable: expected {expect} strong handles"), step));
@@ -192,7 +217,7 @@ fn run_t<T>(c: &RawCase, mk: &dyn Fn(usize) -> T, on_step: &mut dyn FnMut(usize)
             if crate::report::soft_enabled(crate::report::S_COUNT) && sc as u32 != expect {
                 return Some(("count-mismatch", "other-payload-strong-count", format!("payload {tname}: object {i} has strong count {sc}, expected {expect}"), step));
             }
-            if crate::report::soft_enabled(crate::report::S_WEAK) && !alive[i] && sut(|| weaks[i].upgrade()).is_some() {
+            if crate::report::soft_enabled(crate::report::S_WEAK) && !alive[i] && sut(|| wk.upgrade()).is_some() {
                 return Some(("weak-resurrect", "other-payload-upgrade", format!("payload {tname}: Weak to dead object {i} upgraded"), step));
             }
         }
@@ -312,7 +337,11 @@ fn run_t<T>(c: &RawCase, mk: &dyn Fn(usize) -> T, on_step: &mut dyn FnMut(usize)
                 }
             }
             for &s in &set {
-                if crate::report::soft_enabled(crate::report::S_COLLECT) && sut(|| weaks[s].strong_count()) != 0 {
+                let still = match weaks[s].as_ref() {
+                    Some(wk) => sut(|| wk.strong_count()) != 0,
+                    None => alloc::block_state_gen(addr[s].0, addr[s].1) == alloc::BlockState::Live,
+                };
+                if crate::report::soft_enabled(crate::report::S_COLLECT) && still {
                     return Some(("not-collected", "other-payload-group-left", format!("payload {tname}: the group {:?} became orphaned (every handle a recorded adoption inside it) but object {s} is still alive", set), step + 1));
                 }
             }
@@ -324,7 +353,7 @@ fn run_t<T>(c: &RawCase, mk: &dyn Fn(usize) -> T, on_step: &mut dyn FnMut(usize)
     // dead objects: allocation pinned by our Weak until it is dropped, then released
     for i in 0..k {
         let (a, g) = addr[i];
-        if crate::report::soft_enabled(crate::report::S_LEAK) && !alive[i] && alloc::block_state_gen(a, g) != alloc::BlockState::Live {
+        if crate::report::soft_enabled(crate::report::S_LEAK) && weaks[i].is_some() && !alive[i] && alloc::block_state_gen(a, g) != alloc::BlockState::Live {
             return Some(("released-early", "other-payload-allocation", format!("payload {tname}: allocation of dead object {i} released while a Weak exists"), c.order.len()));
         }
     }
